@@ -387,6 +387,27 @@ func init() {
 							}
 							if through {
 								uses++
+								// a buffer in FRONT of the hashing writer holds bytes the hash has not seen:
+								// it has to be flushed before the running CRC is taken
+								for i, ct := range ctors {
+									if ct == ssa.Value(cwCall) {
+										break
+									}
+									if ch[i] != "bufio" {
+										continue
+									}
+									flushed := false
+									for _, fb := range fn.Blocks {
+										for _, fi := range fb.Instrs {
+											if fc, ok := fi.(*ssa.Call); ok && fc.Call.StaticCallee() != nil && fc.Call.StaticCallee().Name() == "Flush" && len(fc.Call.Args) > 0 && fc.Call.Args[0] == ct && before(ins, fc) && before(fc, seedPos) {
+												flushed = true
+											}
+										}
+									}
+									if !flushed {
+										bypass = append(bypass, fmt.Sprintf("%s at %s writes through a bufio.Writer placed in front of the hashing writer, and the running CRC is taken at %s without that buffer having been flushed: the bytes still in the buffer are not covered", calleeFullName(ci.Common()), c.pos(ins.Pos()), c.pos(seedPos.Pos())))
+									}
+								}
 							} else if before(ins, site) {
 								bypass = append(bypass, fmt.Sprintf("%s at %s writes to the destination through %v, bypassing the hashing writer", calleeFullName(ci.Common()), c.pos(ins.Pos()), ch))
 							}
